@@ -92,6 +92,19 @@ Definition pubkey_bytes (k : xkey) : list N :=
 
 Definition out_of_range (v : N) : bool := (secp_nN <=? v) || (v =? 0).   (* Cmp(N) >= 0 || Sign() == 0 *)
 
+(* The same test with the two integer literals of the source kept as parameters: `x.Cmp(N) >= c || x.Sign() == s`
+   (big.Int.Cmp gives -1 / 0 / 1, Sign of a non-negative value 0 / 1).  Child and NewMaster use this form with the
+   literals extracted from their bodies (review round 2): no input can reach IL = n or IL = 0 on the real code, so
+   only the tie can notice `>= 1` or `== 1` there.  NewKeyFromString keeps [out_of_range]; its boundaries (0, n) are
+   exercised directly by the C05 harness. *)
+Definition cmp_n (v : N) : Z := match N.compare v secp_nN with Lt => (-1)%Z | Eq => 0%Z | Gt => 1%Z end.
+Definition sign_n (v : N) : Z := if N.eqb v 0%N then 0%Z else 1%Z.
+Definition out_of_range_lit (c s : Z) (v : N) : bool := (c <=? cmp_n v)%Z || (sign_n v =? s)%Z.
+Definition child_out_of_range : N -> bool :=
+  out_of_range_lit (Z.of_N (lit lits_ExtendedKey_Child 5)) (Z.of_N (lit lits_ExtendedKey_Child 6)).
+Definition master_out_of_range : N -> bool :=
+  out_of_range_lit (Z.of_N (lit lits_NewMaster 2)) (Z.of_N (lit lits_NewMaster 3)).
+
 (* Child *)
 Definition child (k : xkey) (i : N) : res xkey :=
   if xk_depth k =? maxUint8 then Err E_depth else
@@ -106,7 +119,7 @@ Definition child (k : xkey) (i : N) : res xkey :=
   let il := firstn (length ilr / LC 3) ilr in
   let cc := skipn (length ilr / LC 4) ilr in
   let ilNum := set_bytes il in
-  if out_of_range ilNum then Err E_invalid_child else
+  if child_out_of_range ilNum then Err E_invalid_child else
   do childKey <-
     (if xk_priv k then
        let v := (ilNum + set_bytes (xk_key k)) mod secp_nN in
@@ -136,7 +149,7 @@ Definition new_master (seed : list N) (nt : net) : res xkey :=
   let lr := hmac512 masterKey seed in
   let sk := firstn (length lr / LM 0) lr in
   let cc := skipn (length lr / LM 1) lr in
-  if out_of_range (set_bytes sk) then Err E_unusable else
+  if master_out_of_range (set_bytes sk) then Err E_unusable else
   Ok (mk_xkey (hd_priv_id nt) sk cc
         [N.of_nat (LM 4); N.of_nat (LM 5); N.of_nat (LM 6); N.of_nat (LM 7)] (N.of_nat (LM 8)) (N.of_nat (LM 9)) true).
 
